@@ -8,6 +8,7 @@ use crate::model::canon::{canonical_path, parse_query};
 use crate::model::verify::*;
 use crate::types::*;
 use proptest::prelude::*;
+use serde::{Deserialize, Serialize};
 use serde_json::json;
 
 pub const RULE: &str = "generated: accepted requests (all methods, HTTP versions, header multisets with repeated names and odd bytes, bodies, both carriers, folded or not) with generated principals (user / assumed role / service / several identities) and session data in the provider's answer. Oracle (round trip): the returned Parts equal the submitted ones -- method, version, URI string, and per header name the same values in the same order with the same total count -- and the body bytes are identical; when the model says folding applied, the body is empty, the returned path canonicalises to the reference canonical path and the multiset of decoded (name, value) pairs of the returned query equals URL pairs + body pairs (X-Amz-Signature pairs may be present or absent); principal and session data equal the provider's. Non-trivial: repeated header names, or a folded body with names on both sides, or non-empty session data; distinct by request digest.";
@@ -41,6 +42,34 @@ pub fn subs() -> Vec<Box<dyn AnySub>> {
                     .boxed()
             },
             check: check_roundtrip,
+        }),
+        // further Authorization header lines after the one that authenticates (rule 6a uses the first):
+        // they are part of the submitted request and come back with it
+        Box::new(Sub {
+            name: "roundtrip-several-authorization-lines",
+            quick: 8_000,
+            thorough: 100_000,
+            strat: || {
+                (plan(PlanOpts { header_only: true, ..PlanOpts::default() }), proptest::collection::vec(prop_oneof![Just("Basic dXNlcjpwYXNz".to_string()), Just("AWS4-HMAC-SHA256 Credential=x".to_string()), Just(String::new()), "[!-~]{1,20}( [!-~]{1,20}){0,2}", Just("@same".to_string())], 1..4))
+                    .prop_map(|(plan, more)| Extra { plan, more })
+                    .boxed()
+            },
+            check: check_extra,
+        }),
+        Box::new(Sub {
+            name: "roundtrip-with-trace-logging",
+            quick: 15_000,
+            thorough: 200_000,
+            strat: || (plan(PlanOpts { logical: LogicalOpts { max_headers: 6, ..LogicalOpts::default() }, ..PlanOpts::default() }), any::<bool>()).prop_map(|(mut p, f)| {
+                if f && p.form.is_some() {
+                    p.cfg.fold = true;
+                }
+                p
+            }).boxed(),
+            check: |p, cc| {
+                exec::enable_log_capture();
+                exec::with_logs(|| check_roundtrip(p, cc)).0.map_err(|f| Failure::new(&format!("{}:trace-logging", f.sig), f.msg))
+            },
         }),
         Box::new(Sub {
             name: "roundtrip-large-fold",
@@ -84,12 +113,37 @@ fn sorted(mut v: Vec<(Vec<u8>, Vec<u8>)>) -> Vec<(Vec<u8>, Vec<u8>)> {
     v
 }
 
+#[derive(Clone, Debug, Serialize, Deserialize)]
+pub struct Extra {
+    pub plan: Plan,
+    /// values of the additional Authorization lines ("@same" repeats the authenticating one)
+    pub more: Vec<String>,
+}
+
+pub fn check_extra(x: &Extra, cc: &mut CaseCtx) -> CheckResult {
+    let Ok(built) = x.plan.build() else {
+        cc.class("unsignable");
+        return Ok(());
+    };
+    let mut case = built.case.clone();
+    let Some(first) = case.req.headers.iter().find(|(n, _)| n.eq_ignore_ascii_case("authorization")).cloned() else { return Ok(()) };
+    for (i, v) in x.more.iter().enumerate() {
+        let name = ["authorization", "Authorization", "AUTHORIZATION"][i % 3].to_string();
+        case.req.headers.push((name, if v == "@same" { first.1.clone() } else { B::from(v.as_str()) }));
+    }
+    cc.class("several-authorization-lines");
+    roundtrip_case(&x.plan, &case, cc)
+}
+
 pub fn check_roundtrip(p: &Plan, cc: &mut CaseCtx) -> CheckResult {
     let Ok(built) = p.build() else {
         cc.class("unsignable");
         return Ok(());
     };
-    let case = &built.case;
+    roundtrip_case(p, &built.case, cc)
+}
+
+pub fn roundtrip_case(p: &Plan, case: &Case, cc: &mut CaseCtx) -> CheckResult {
     let a = analyze(case);
     let o = exec::run(case);
     check_total(&o)?;
